@@ -1458,6 +1458,16 @@ fn fixed_scenarios(mut id: u64, thorough: bool) -> Vec<Value> {
     // the window-stall reaper (listener with a 1 s stream idle timeout): one stream starved, the other served
     add("fixed:front:reaper", "front", "h2", "reap", json!([{"down": 200_000, "up": 0}]),
         json!([{"op": "settings", "initWin": 1000}, {"op": "sync"}, {"op": "open", "down": 200_000, "up": 0}, {"op": "sync"}, {"op": "reap-wait"}]), &mut v);
+    // a write that ends INSIDE a frame header: rustls absorbs at most 64 KiB of plaintext per write (its default buffer limit).
+    // The whole body waits in sozu behind a stream window of 0; one WINDOW_UPDATE releases it in one pass of the writer:
+    // 4 DATA frames + the empty END_STREAM frame = body + 45 bytes. With a body of 65 492 ... 65 499 bytes the 65 536th byte
+    // is one of the first 8 of the last 9-byte frame header, which is then finished by a write shorter than the header
+    // (found by tlc:resettings:server schedules: worker panic in kawa's Store::consume, `amount - data.len() + index`)
+    for (tag, body) in [("a", 65_494i64), ("b", 65_499), ("c", 65_492)] {
+        add(&format!("fixed:front:write-ends-in-frame-header-{tag}"), "front", "h2", "tls", json!([{"down": body, "up": 0}]),
+            json!([{"op": "settings", "initWin": 0}, {"op": "sync"}, {"op": "open", "down": body, "up": 0}, {"op": "sync"}, {"op": "pause", "ms": 300},
+                   {"op": "wu", "slot": 1, "n": 65_535}, {"op": "finish", "mode": "eager"}]), &mut v);
+    }
     if thorough {
         add("fixed:front:download-20MB", "front", "h2", "tls", json!([{"down": 20_000_000, "up": 0}]),
             json!([{"op": "settings", "initWin": 65_535, "maxFrame": 65_536}, {"op": "sync"}, {"op": "open", "down": 20_000_000, "up": 0}, {"op": "finish", "mode": "burst", "k": 1 << 20}]), &mut v);
@@ -1604,6 +1614,10 @@ fn start_worker_logging(name: &str, config: sozu_command_lib::proto::command::Se
 }
 
 static PANICS: Mutex<Vec<String>> = Mutex::new(Vec::new());
+/// set by the panic hook when the panicking thread is the worker ("c14"): no schedule is started against a dead worker
+/// (each one would wait for its deadline and for the sidecar: the run would outlast the check's timeout and the violation
+/// would end as a tool error)
+static WORKER_DEAD: AtomicBool = AtomicBool::new(false);
 /// mux_ready_exit snapshots (hook) that show an HTTP/2 connection parked with a stream frame half-written
 /// (`ew` = a stream) AND control output waiting for the frame boundary: WINDOW_UPDATEs queued / an answer
 /// deferred into the zero buffer with the reads parked.  Coverage evidence only: how often the full-duplex
@@ -1634,6 +1648,7 @@ fn main() {
         let bt = std::backtrace::Backtrace::force_capture().to_string();
         let frames: Vec<&str> = bt.lines().filter(|l| l.contains("sozu") || l.contains("kawa")).take(12).collect();
         if let Ok(mut p) = PANICS.lock() { p.push(format!("{} | {}", info, frames.join(" <- "))); }
+        if std::thread::current().name() == Some("c14") { WORKER_DEAD.store(true, Ordering::SeqCst); }
     }));
     let args: Vec<String> = std::env::args().collect();
     let arg = |k: &str| args.iter().position(|a| a == k).and_then(|i| args.get(i + 1)).cloned();
@@ -1734,6 +1749,7 @@ fn main() {
     std::thread::scope(|scope| {
         for _ in 0..threads {
             scope.spawn(|| loop {
+                if WORKER_DEAD.load(Ordering::SeqCst) { break; }
                 let item = queue.lock().unwrap().pop_front();
                 let Some((sc, bl)) = item else { break };
                 let r = std::panic::catch_unwind(std::panic::AssertUnwindSafe(|| {
@@ -1765,7 +1781,7 @@ fn main() {
         "done": count("done"), "stall": count("stall"), "closed": count("closed"), "inconclusive": count("inconclusive"),
         "garbled": count("garbled"), "sidecar_probes": sh.beat.used.load(Ordering::Relaxed),
         "half_frame_wu_pending": HALF_FRAME_WU.load(Ordering::Relaxed), "half_frame_zero_deferred": HALF_FRAME_ZERO.load(Ordering::Relaxed),
-        "worker_panic": worker_panic, "worker_wedged": worker_wedged, "panics": PANICS.lock().map(|p| p.clone()).unwrap_or_default(), "wall_s": t0.elapsed().as_secs_f64(),
+        "worker_panic": worker_panic, "worker_wedged": worker_wedged, "not_started": queue.lock().map(|q| q.len()).unwrap_or(0), "panics": PANICS.lock().map(|p| p.clone()).unwrap_or_default(), "wall_s": t0.elapsed().as_secs_f64(),
         "data_bytes": results.iter().map(|r| r["data_bytes"].as_i64().unwrap_or(0)).sum::<i64>()}));
     std::process::exit(0);
 }
